@@ -353,7 +353,8 @@ def run_property(pid, tier, seed, nshards=None, scale=1.0, only=None):
     _prepare_env()
     mod = load_prop(pid)
     known = known_for(pid)
-    avoid = sorted({k["id"] for k in known})
+    # generators exclude the trigger of every known finding, whichever property lists it
+    avoid = sorted({k["id"] for k in load_known()["findings"] if k["status"] == "known"})
     if nshards is None:
         nshards = 1 if tier == "quick" else min(16, os.cpu_count() or 1)
         nshards = int(os.environ.get("VERIF_SHARDS", nshards))
@@ -493,7 +494,7 @@ def replay_file(pid, path):
     mod = load_prop(pid)
     with open(path) as f:
         rec = json.load(f)
-    avoid = sorted({k["id"] for k in known_for(pid)})
+    avoid = sorted({k["id"] for k in load_known()["findings"] if k["status"] == "known"})
     streams = {s.name: s for s in mod.streams("quick", avoid)}
     s = streams.get(rec["stream"])
     if s is None:
